@@ -100,6 +100,55 @@ pub fn out_shape(l: &Simple, inp: Sh) -> Option<Sh> {
     }
 }
 
+/// spatial layers whose parameters stand in a SPECIAL RELATION to each other or to the input - the
+/// configurations for which a specialised code path is tempting: stride == kernel (non-overlapping
+/// patches), with and without dilation, tiling the input exactly or not; a 1x1 kernel with padding and
+/// stride > 1; the kernel equal to the input; the (dilated) kernel overhanging the input by more than the
+/// one-sided padding; padding >= kernel; stride > kernel. Used by the forward (C02), backward (C01) and
+/// shape (C08) generators alike.
+pub fn special_relation_layers() -> Vec<(Sh, Simple)> {
+    let conv = |filters, kernel, stride, padding, dilation, act| Simple::Conv { filters, kernel, stride, padding, dilation, act, dropout: None };
+    let deconv = |filters, kernel, stride, padding, act| Simple::Deconv { filters, kernel, stride, padding, act, dropout: None };
+    vec![
+        // patch-wise convolutions
+        (Sh::Sp(2, 8, 8), conv(2, (2, 2), (2, 2), (0, 0), (2, 2), Act::Linear)),
+        (Sh::Sp(1, 8, 9), conv(2, (2, 3), (2, 3), (0, 0), (3, 2), Act::Tanh)),
+        (Sh::Sp(1, 6, 6), conv(2, (3, 3), (3, 3), (0, 0), (1, 1), Act::Linear)),
+        (Sh::Sp(2, 4, 6), conv(1, (2, 3), (2, 3), (0, 0), (1, 2), Act::Sigmoid)),
+        (Sh::Sp(1, 7, 5), conv(2, (2, 2), (2, 2), (0, 0), (1, 1), Act::Linear)),
+        (Sh::Sp(1, 6, 4), conv(1, (3, 2), (3, 2), (0, 0), (2, 1), Act::Linear)),
+        // 1x1 kernels with padding and stride
+        (Sh::Sp(2, 5, 5), conv(2, (1, 1), (2, 2), (1, 1), (1, 1), Act::Linear)),
+        (Sh::Sp(1, 4, 7), conv(1, (1, 1), (3, 2), (2, 1), (1, 1), Act::Tanh)),
+        (Sh::Sp(1, 4, 4), conv(2, (1, 1), (2, 1), (0, 2), (1, 1), Act::Linear)),
+        (Sh::Sp(2, 3, 3), conv(1, (1, 1), (1, 1), (1, 2), (2, 3), Act::Linear)),
+        // plain pointwise layers (1x1, stride 1, no padding)
+        (Sh::Sp(2, 3, 3), conv(2, (1, 1), (1, 1), (0, 0), (1, 1), Act::Tanh)),
+        (Sh::Sp(3, 2, 4), conv(1, (1, 1), (1, 1), (0, 0), (2, 2), Act::Linear)),
+        (Sh::Sp(2, 3, 2), deconv(2, (1, 1), (1, 1), (0, 0), Act::Tanh)),
+        // the (dilated) kernel overhangs the input by more than the one-sided padding
+        (Sh::Sp(1, 2, 2), conv(1, (4, 4), (1, 1), (1, 1), (1, 1), Act::Linear)),
+        (Sh::Sp(2, 1, 1), conv(2, (3, 3), (1, 1), (1, 1), (1, 1), Act::Linear)),
+        (Sh::Sp(1, 3, 3), conv(1, (3, 3), (1, 1), (1, 1), (2, 2), Act::Tanh)),
+        (Sh::Sp(1, 1, 5), conv(2, (1, 3), (1, 1), (0, 2), (1, 4), Act::Linear)),
+        // kernel == input, padding >= kernel
+        (Sh::Sp(2, 3, 4), conv(2, (3, 4), (1, 1), (0, 0), (1, 1), Act::Linear)),
+        (Sh::Sp(1, 3, 3), conv(1, (2, 2), (1, 2), (2, 3), (1, 1), Act::Linear)),
+        // deconvolutions: stride == kernel, 1x1 kernel with stride and padding, stride > kernel, padding >= kernel
+        (Sh::Sp(2, 3, 3), deconv(2, (2, 2), (2, 2), (0, 0), Act::Linear)),
+        (Sh::Sp(1, 2, 4), deconv(1, (3, 2), (3, 2), (1, 0), Act::Tanh)),
+        (Sh::Sp(2, 4, 4), deconv(1, (1, 1), (2, 2), (1, 1), Act::Linear)),
+        (Sh::Sp(1, 3, 3), deconv(2, (2, 2), (3, 3), (0, 0), Act::Linear)),
+        (Sh::Sp(1, 4, 4), deconv(1, (2, 2), (2, 2), (2, 2), Act::Linear)),
+        (Sh::Sp(1, 5, 3), deconv(1, (2, 3), (2, 1), (3, 1), Act::Sigmoid)),
+        // max-pools: stride == kernel not tiling the input, kernel == input, stride > kernel, 1x1 window with stride
+        (Sh::Sp(1, 5, 7), Simple::Maxpool { kernel: (2, 3), stride: (2, 3) }),
+        (Sh::Sp(2, 3, 4), Simple::Maxpool { kernel: (3, 4), stride: (1, 1) }),
+        (Sh::Sp(2, 7, 7), Simple::Maxpool { kernel: (2, 2), stride: (3, 3) }),
+        (Sh::Sp(1, 5, 5), Simple::Maxpool { kernel: (1, 1), stride: (2, 2) }),
+    ]
+}
+
 #[derive(Clone)]
 pub struct GenOpts {
     pub acts: Vec<Act>,
